@@ -55,6 +55,11 @@ type Atom struct {
 	Variant int    `json:"variant,omitempty"`
 	Wrap    string `json:"wrap,omitempty"`  // "", "try", "if", "for": the K lines sit inside such a block; widening w4: "while", "catch", "finally", "else", "sync", "switch", "lambda"
 	Split   bool   `json:"split,omitempty"` // widening w4: the argument list continues on the next line (the call starts on the first)
+	// audit widening
+	OneLine  bool `json:"oneLine,omitempty"`  // the K statements stand on one source line
+	Spaced   int  `json:"spaced,omitempty"`   // 1: blanks around . ( ) , ; of the call statement; 2: also a comment after every dot
+	Args     int  `json:"args,omitempty"`     // helper / peer: number of arguments passed (= parameters of the called helper)
+	SameArgs bool `json:"sameArgs,omitempty"` // helper with two arguments: both argument texts identical
 }
 
 // Method kinds: "test" (annotated), "helper" (un-annotated, called by tests of the class),
@@ -72,6 +77,14 @@ type Method struct {
 	// extraAnnotations, 0 = none), written before annotation number ExtraPos of the method
 	Extra    int `json:"extra,omitempty"`
 	ExtraPos int `json:"extraPos,omitempty"`
+	// audit widening
+	Params    int  `json:"params,omitempty"`    // helpers: 0..2 int parameters; tests: 1 = (TestInfo info)
+	AnnotForm int  `json:"annotForm,omitempty"` // 1 @Test(); 2 @Test(expected = X.class); 3 @Ignore(value = ".."); 4 a blank after the @
+	Qualified int  `json:"qualified,omitempty"` // bit 1: @org.junit.Test; bit 2: @org.junit.Ignore
+	ModsFirst bool `json:"modsFirst,omitempty"` // the modifiers stand before the annotations: public @Test void f()
+	BraceNext bool `json:"braceNext,omitempty"` // the opening brace of the body on its own line
+	Compact   bool `json:"compact,omitempty"`   // declaration, body and closing brace on one line
+	Doc       int  `json:"doc,omitempty"`       // 1 javadoc quoting the patterns before the annotations; 2 block comment, 3 line comment between annotations and declaration
 }
 
 // File roles: "test" or "prod". Where a file lands follows from the layout of the case.
@@ -91,6 +104,21 @@ type File struct {
 	ClassAnnot int  `json:"classAnnot,omitempty"` // 0 none; 1 @RunWith(..); 2 @Ignore on the class; 3 @Category(..) @Ignore("later") on the class
 	Extends    bool `json:"extends,omitempty"`    // extends BaseTestCase
 	CRLF       bool `json:"crlf,omitempty"`
+	// audit widening
+	NoFinalNewline bool   `json:"noFinalNewline,omitempty"`
+	LeadingBlank   int    `json:"leadingBlank,omitempty"` // blank lines before anything else
+	Imports        int    `json:"imports,omitempty"`      // 1 every import twice; 2 unused imports (java.lang.Thread, java.io.PrintStream, java.util.*, static java.lang.Math.*)
+	LongLine       int    `json:"longLine,omitempty"`     // 1 a comment line of 5000 characters; 2 a string literal of 70000 characters
+	Peer           string `json:"peer,omitempty"`         // name of another test class of the tree: field `private <Peer> peer;`
+}
+
+// ExtraFile is a file of the tree that is no Java class: a copy of a test file's text under a
+// name that is no Java source name (kind "copy"), a .gitignore whose patterns match none of
+// the tree's files ("gitignore"), a package-info.java ("pkginfo": a test file without a class).
+type ExtraFile struct {
+	Kind string `json:"kind"`
+	Rel  string `json:"rel"`
+	Copy int    `json:"copy,omitempty"` // index into Files
 }
 
 type Case struct {
@@ -102,6 +130,11 @@ type Case struct {
 	DirStyle int  `json:"dirStyle,omitempty"` // CLI only: 0 as RelDir says; 1 "./proj"; 2 "proj/"; 3 run inside proj without -p (the default ".")
 	Sort     bool `json:"sort,omitempty"`     // CLI only: -s (the report grouped by type)
 	Repeat   bool `json:"repeat,omitempty"`   // API only: the whole pipeline runs a second time in the same process without any reset
+	// audit widening
+	Extras   []ExtraFile `json:"extras,omitempty"`
+	Prior    []File      `json:"prior,omitempty"`    // another tree (same layout), analysed first: in the same process without reset (API), by a first `coca tbs` run in the same working directory (CLI)
+	ArgStyle int         `json:"argStyle,omitempty"` // CLI only: 0 -p DIR / -s; 1 --path DIR / --sort; 2 --path=DIR / --sort=true; 3 -p=DIR / -s=true
+	Twice    bool        `json:"twice,omitempty"`    // CLI only: the same tree is analysed first with the other setting of -s, in the same working directory
 }
 
 // ---------------------------------------------------------------------------------------
@@ -140,9 +173,41 @@ type jw struct {
 	unit  string
 	v     int
 	class string // name of the class being printed
+	// audit widening: while joining > 0 the pieces handed to ln are appended to one source
+	// line (number w.next), separated by one blank
+	joining int
+	started bool
+}
+
+// begin starts a joined line, end finishes it; the pairs nest.
+func (w *jw) begin() {
+	if w.joining == 0 {
+		w.started = false
+	}
+	w.joining++
+}
+
+func (w *jw) end() {
+	w.joining--
+	if w.joining == 0 {
+		w.sb.WriteString("\n")
+		w.next++
+	}
 }
 
 func (w *jw) ln(depth int, s string) int {
+	if w.joining > 0 {
+		if s != "" {
+			if w.started {
+				w.sb.WriteString(" ")
+			} else {
+				w.sb.WriteString(strings.Repeat(w.unit, depth))
+				w.started = true
+			}
+			w.sb.WriteString(s)
+		}
+		return w.next
+	}
 	n := w.next
 	if s != "" {
 		w.sb.WriteString(strings.Repeat(w.unit, depth))
@@ -234,7 +299,11 @@ func (w *jw) atom(depth int, a Atom, style int, t *methodTruth) {
 	}
 	// emit writes one call statement; with Split the argument list continues on a second
 	// line. The call starts on the returned line either way.
+	// every call statement goes through sp (blanks / comments between its tokens) and, unless
+	// it is a chain, through emit
+	sp := func(text string) string { return spaceOut(text, a.Spaced) }
 	emit := func(text string) int {
+		text = sp(text)
 		if i := strings.Index(text, "("); a.Split && i > 0 {
 			n := w.ln(d, text[:i+1])
 			w.ln(d+2, text[i+1:])
@@ -242,37 +311,70 @@ func (w *jw) atom(depth int, a Atom, style int, t *methodTruth) {
 		}
 		return w.ln(d, text)
 	}
+	if a.OneLine {
+		w.begin()
+	}
 	for i := 0; i < a.K; i++ {
 		k := w.fresh()
 		switch a.Kind {
 		case "print":
 			var text string
-			switch a.Variant % 4 {
+			extra := false
+			rec := callRec{Name: "System.out.print*", Print: true}
+			switch a.Variant % 6 {
 			case 0:
 				text = fmt.Sprintf("System.out.println(\"value %d\");", k)
 			case 1:
 				text = fmt.Sprintf("System.out.print(limit + %d);", k)
 			case 2:
 				text = fmt.Sprintf("System.out.printf(\"%%d%%n\", %d);", k)
-			default:
+			case 3:
 				text = "System.out.println();"
+			case 4:
+				// a print that is also a two-argument call with identical argument texts
+				text = "System.out.printf(\"%s\", \"%s\");"
+				rec.Same2 = true
+			default:
+				text, extra = "System.out.print(service.total());", true
 			}
-			n := emit(text)
-			t.Calls = append(t.Calls, callRec{Name: "System.out.print*", Line: n, Print: true})
+			rec.Line = emit(text)
+			t.Calls = append(t.Calls, rec)
+			if extra {
+				t.Calls = append(t.Calls, callRec{Name: "total", Line: rec.Line})
+			}
 		case "sleep":
-			n := emit(fmt.Sprintf("Thread.sleep(%d);", 10*k))
-			t.Calls = append(t.Calls, callRec{Name: "Thread.sleep", Line: n, Sleep: true})
+			rec := callRec{Name: "Thread.sleep", Sleep: true}
+			extra := false
+			text := fmt.Sprintf("Thread.sleep(%d);", 10*k)
+			switch a.Variant % 4 {
+			case 1:
+				text = fmt.Sprintf("Thread.sleep(%d, 500000);", k) // the overload with nanoseconds
+			case 2:
+				text = "Thread.sleep(5, 5);" // also two identical argument texts
+				rec.Same2 = true
+			case 3:
+				text, extra = "Thread.sleep(TimeUnit.SECONDS.toMillis(1));", true
+			}
+			rec.Line = emit(text)
+			t.Calls = append(t.Calls, rec)
+			if extra {
+				t.Calls = append(t.Calls, callRec{Name: "toMillis", Line: rec.Line})
+			}
 		case "same2":
-			arg := []string{"expected", fmt.Sprint(k), "\"text\"", "limit", "names[0]", "limit + 1", "service.total()"}[a.Variant%7]
+			arg := []string{"expected", fmt.Sprint(k), "\"text\"", "limit", "names[0]", "limit + 1", "service.total()",
+				"\"a, b\"", "Arrays.asList(1, 2)"}[a.Variant%9]
 			n := emit(fmt.Sprintf("%s(%s, %s);", callee(a.Name, q), arg, arg))
 			t.Calls = append(t.Calls, callRec{Name: a.Name, Line: n, Assertion: assertionNames[a.Name], Same2: true})
-			if a.Variant%7 == 6 {
+			if a.Variant%9 == 6 {
 				t.Calls = append(t.Calls, callRec{Name: "total", Line: n}, callRec{Name: "total", Line: n})
+			}
+			if a.Variant%9 == 8 {
+				t.Calls = append(t.Calls, callRec{Name: "asList", Line: n}, callRec{Name: "asList", Line: n})
 			}
 		case "diff2":
 			pair := [][2]string{{"expected", "actual"}, {fmt.Sprint(k), fmt.Sprint(k + 1)}, {"\"text\"", "\"text \""},
 				{"limit", "limit1"}, {"1", "1L"}, {"expected", "Expected"}, {fmt.Sprint(k), "service.total()"},
-				{"service.total()", "service.total(1)"}}[a.Variant%8]
+				{"service.total()", "service.total(1)"}, {"limit1", "limit"}, {"\"a, b\"", "\"a,b\""}}[a.Variant%10]
 			n := emit(fmt.Sprintf("%s(%s, %s);", callee(a.Name, q), pair[0], pair[1]))
 			t.Calls = append(t.Calls, callRec{Name: a.Name, Line: n, Assertion: assertionNames[a.Name]})
 			for _, arg := range pair {
@@ -283,16 +385,23 @@ func (w *jw) atom(depth int, a Atom, style int, t *methodTruth) {
 		case "assert":
 			switch a.Name {
 			case "assertThat":
-				n := w.ln(d, fmt.Sprintf("%s(actual).isEqualTo(%d);", q("assertThat"), k))
+				if a.Variant%2 == 1 {
+					// the hamcrest form: a two-argument assertion whose second argument is the call is(..)
+					n := emit(fmt.Sprintf("%s(actual, is(%d));", q("assertThat"), k))
+					t.Calls = append(t.Calls, callRec{Name: "assertThat", Line: n, Assertion: true},
+						callRec{Name: "is", Line: n, Assertion: true})
+					break
+				}
+				n := w.ln(d, sp(fmt.Sprintf("%s(actual).isEqualTo(%d);", q("assertThat"), k)))
 				t.Calls = append(t.Calls, callRec{Name: "assertThat", Line: n, Assertion: true},
 					callRec{Name: "isEqualTo", Line: n, Assertion: true})
 			case "verify":
-				n := w.ln(d, fmt.Sprintf("%s(listener).run();", q("verify")))
+				n := w.ln(d, sp(fmt.Sprintf("%s(listener).run();", q("verify"))))
 				t.Calls = append(t.Calls, callRec{Name: "verify", Line: n, Assertion: true},
 					callRec{Name: "run", Line: n})
 			case "assertThrows":
 				// a two-argument assertion (different arguments) around a lambda that makes a call
-				n := w.ln(d, fmt.Sprintf("%s(IllegalStateException.class, () -> service.load(%d));", q("assertThrows"), k))
+				n := w.ln(d, sp(fmt.Sprintf("%s(IllegalStateException.class, () -> service.load(%d));", q("assertThrows"), k)))
 				t.Calls = append(t.Calls, callRec{Name: "assertThrows", Line: n, Assertion: true},
 					callRec{Name: "load", Line: n})
 			default:
@@ -300,18 +409,28 @@ func (w *jw) atom(depth int, a Atom, style int, t *methodTruth) {
 				t.Calls = append(t.Calls, callRec{Name: a.Name, Line: n, Assertion: true})
 			}
 		case "helper":
-			text := a.Name + "();"
+			text := a.Name + "(" + helperArgs(a, k) + ");"
 			switch a.Variant % 3 {
 			case 1:
 				text = "this." + text
 			case 2:
 				text = w.class + "." + text // a static helper named through its own class
 			}
-			n := w.ln(d, text)
-			t.Calls = append(t.Calls, callRec{Name: a.Name, Line: n, Helper: a.Name})
+			n := w.ln(d, sp(text))
+			t.Calls = append(t.Calls, callRec{Name: a.Name, Line: n, Helper: a.Name, Same2: a.Args == 2 && a.SameArgs})
+		case "peer":
+			// the helper of ANOTHER test class of the tree, called on a field of that type: no
+			// helper of the same class, whatever its body holds
+			n := emit("peer." + a.Name + "(" + helperArgs(a, k) + ");")
+			t.Calls = append(t.Calls, callRec{Name: "peer." + a.Name, Line: n, Same2: a.Args == 2 && a.SameArgs})
+		case "mock":
+			// an assertion method called on a field: orderMock and orderMock2 are OrderMocks,
+			// ledgerMock is a LedgerMock (another class, hence another method of the same name)
+			n := emit(a.Name + ".verifyAll();")
+			t.Calls = append(t.Calls, callRec{Name: mockType(a.Name) + ".verifyAll", Line: n, Assertion: true})
 		case "neutral":
 			var text, name string
-			switch a.Variant % 14 {
+			switch a.Variant % 20 {
 			case 0:
 				text, name = fmt.Sprintf("service.load(%d);", k), "load"
 			case 1:
@@ -339,8 +458,21 @@ func (w *jw) atom(depth int, a Atom, style int, t *methodTruth) {
 				text, name = fmt.Sprintf("System.out.format(\"%%d\", %d);", k), "format" // no print/println/printf
 			case 12:
 				text, name = fmt.Sprintf("repository.store(%d, key, key);", k), "store" // three arguments
-			default:
+			case 13:
 				text, name = "service.prepareFixture();", "prepareFixture" // named like a helper, on another object
+			// audit widening
+			case 14:
+				text, name = fmt.Sprintf("out.println(\"value %d\");", k), "println" // a field named out
+			case 15:
+				text, name = fmt.Sprintf("this.out.printf(\"%%d\", %d);", k), "printf"
+			case 16:
+				text, name = fmt.Sprintf("writer.print(%d);", k), "print"
+			case 17:
+				text, name = "Thread.yield();", "yield"
+			case 18:
+				text, name = fmt.Sprintf("service.reassert(%d);", k), "reassert" // an assertion prefix inside the name
+			default:
+				text, name = "service.unverified();", "unverified"
 			}
 			n := emit(text)
 			t.Calls = append(t.Calls, callRec{Name: name, Line: n})
@@ -352,7 +484,11 @@ func (w *jw) atom(depth int, a Atom, style int, t *methodTruth) {
 			case 0:
 				w.ln(d, fmt.Sprintf("int local%d = %d;", k, k))
 			case 1:
-				w.ln(d, fmt.Sprintf("// System.out.println(\"%d\"); Thread.sleep(1); assertEquals(1, 1);", k))
+				if w.joining > 0 {
+					w.ln(d, fmt.Sprintf("/* System.out.println(\"%d\"); Thread.sleep(1); assertEquals(1, 1); */", k))
+				} else {
+					w.ln(d, fmt.Sprintf("// System.out.println(\"%d\"); Thread.sleep(1); assertEquals(1, 1);", k))
+				}
 			case 2:
 				w.ln(d, fmt.Sprintf("String note%d = \"Thread.sleep(1); System.out.println(1); assertEquals(a, a)\";", k))
 			default:
@@ -361,6 +497,9 @@ func (w *jw) atom(depth int, a Atom, style int, t *methodTruth) {
 		default:
 			panic("GENERATOR BUG: unknown atom kind " + a.Kind)
 		}
+	}
+	if a.OneLine {
+		w.end()
 	}
 	switch a.Wrap {
 	case "try":
@@ -377,6 +516,56 @@ func (w *jw) atom(depth int, a Atom, style int, t *methodTruth) {
 	case "lambda":
 		w.ln(depth, "};")
 	}
+}
+
+// helperArgs renders the arguments of a helper call: int expressions, the two of a
+// two-parameter helper textually identical or not.
+func helperArgs(a Atom, k int) string {
+	switch a.Args {
+	case 1:
+		return "limit"
+	case 2:
+		if a.SameArgs {
+			return "limit, limit"
+		}
+		return fmt.Sprintf("limit, %d", k)
+	}
+	return ""
+}
+
+func mockType(field string) string {
+	if field == "ledgerMock" {
+		return "LedgerMock"
+	}
+	return "OrderMock"
+}
+
+// spaceOut puts blanks around the punctuation of a call statement (mode 1) and a comment after
+// every dot as well (mode 2); string literals stay as they are.
+func spaceOut(text string, mode int) string {
+	if mode == 0 {
+		return text
+	}
+	var sb strings.Builder
+	inString := false
+	for _, r := range text {
+		if r == '"' {
+			inString = !inString
+		}
+		if inString || !strings.ContainsRune(".(),;", r) {
+			sb.WriteRune(r)
+			continue
+		}
+		sb.WriteString(" ")
+		sb.WriteRune(r)
+		if r == '.' && mode == 2 {
+			sb.WriteString(" /* Thread.sleep; System.out.println */")
+		}
+		if r != ';' {
+			sb.WriteString(" ")
+		}
+	}
+	return strings.TrimLeft(sb.String(), " ")
 }
 
 // callee renders the callee of a two-argument call: assertion names follow the file's
@@ -397,12 +586,36 @@ func callee(name string, q func(string) string) string {
 }
 
 func annotationTexts(m Method) []string {
-	test, ignore := "@Test", "@Ignore"
+	at := "@"
+	if m.AnnotForm == 4 {
+		at = "@ "
+	}
+	test, ignore := at+"Test", at+"Ignore"
+	if m.Qualified&1 != 0 {
+		test = at + "org.junit.Test"
+	}
+	if m.Qualified&2 != 0 {
+		ignore = at + "org.junit.Ignore"
+	}
 	if m.AnnotArgs&1 != 0 {
-		test = "@Test(timeout = 1000)"
+		test += "(timeout = 1000)"
 	}
 	if m.AnnotArgs&2 != 0 {
-		ignore = "@Ignore(\"not now\")"
+		ignore += "(\"not now\")"
+	}
+	switch m.AnnotForm {
+	case 1:
+		if m.AnnotArgs&1 == 0 {
+			test += "()"
+		}
+	case 2:
+		if m.AnnotArgs&1 == 0 {
+			test += "(expected = IllegalStateException.class)"
+		}
+	case 3:
+		if m.AnnotArgs&2 == 0 {
+			ignore += "(value = \"not now\")"
+		}
 	}
 	var out []string
 	switch m.Annot {
@@ -433,27 +646,67 @@ func annotationTexts(m Method) []string {
 
 func (w *jw) method(m Method, style int) methodTruth {
 	t := methodTruth{Spec: m}
-	head := "void " + m.Name + "()"
-	if m.Mods != "" {
-		head = m.Mods + " " + head
+	params := ""
+	switch {
+	case m.Kind == "test" && m.Params > 0:
+		params = "TestInfo info"
+	case m.Params == 1:
+		params = "int first"
+	case m.Params >= 2:
+		params = "int first, int second"
 	}
+	head := "void " + m.Name + "(" + params + ")"
 	if m.Throws {
 		head += " throws Exception"
 	}
 	ann := annotationTexts(m)
+	if m.Doc == 1 {
+		// a documentation comment quoting the patterns; the method starts at its first annotation
+		w.ln(1, "/**")
+		w.ln(1, " * @Test @Ignore {@code Thread.sleep(10); System.out.println(1); assertEquals(a, a);}")
+		w.ln(1, " */")
+	}
 	t.FirstLine = w.next
-	if m.SameLine && len(ann) > 0 {
-		head = strings.Join(ann, " ") + " " + head
-	} else {
+	if m.Compact {
+		w.begin()
+	}
+	switch {
+	case m.ModsFirst && m.Mods != "" && len(ann) > 0:
+		// public @Test void f(): the annotations follow the modifiers
+		head = m.Mods + " " + strings.Join(ann, " ") + " " + head
+	case m.SameLine && len(ann) > 0:
+		head = strings.Join(ann, " ") + " " + strings.TrimLeft(m.Mods+" ", " ") + head
+	default:
 		for _, a := range ann {
 			w.ln(1, a)
 		}
+		if len(ann) > 0 {
+			switch m.Doc {
+			case 2:
+				w.ln(1, "/* @Ignore @Test System.out.println(1); */")
+			case 3:
+				if w.joining == 0 {
+					w.ln(1, "// @Ignore @Test Thread.sleep(1);")
+				}
+			}
+		}
+		if m.Mods != "" {
+			head = m.Mods + " " + head
+		}
 	}
-	t.DeclLine = w.ln(1, head+" {")
+	if m.BraceNext {
+		t.DeclLine = w.ln(1, head)
+		w.ln(1, "{")
+	} else {
+		t.DeclLine = w.ln(1, head+" {")
+	}
 	for _, a := range m.Atoms {
 		w.atom(2, a, style, &t)
 	}
 	t.LastLine = w.ln(1, "}")
+	if m.Compact {
+		w.end()
+	}
 	return t
 }
 
@@ -484,6 +737,9 @@ func relPath(c Case, f File) string {
 func render(c Case, f File) fileTruth {
 	w := &jw{next: 1, unit: indentUnits[f.Indent%len(indentUnits)], class: f.Name}
 	t := fileTruth{Rel: relPath(c, f), Role: f.Role, Class: f.Name}
+	for i := 0; i < f.LeadingBlank; i++ {
+		w.ln(0, "")
+	}
 	for i := 0; i < f.Header; i++ {
 		w.ln(0, fmt.Sprintf("// header %d: @Test @Ignore System.out.println(\"x\");", i))
 	}
@@ -491,9 +747,19 @@ func render(c Case, f File) fileTruth {
 		w.ln(0, "package "+f.Package+";")
 		w.ln(0, "")
 	}
+	if f.Imports == 2 {
+		w.ln(0, "import java.lang.Thread;")
+		w.ln(0, "import java.io.PrintStream;")
+		w.ln(0, "import java.util.*;")
+		w.ln(0, "import static java.lang.Math.*;")
+	}
 	if f.Role == "test" {
 		w.ln(0, "import org.junit.Test;")
 		w.ln(0, "import org.junit.Ignore;")
+		if f.Imports == 1 {
+			w.ln(0, "import org.junit.Test;")
+			w.ln(0, "import org.junit.Ignore;")
+		}
 		w.ln(0, "import org.junit.Before;")
 		w.ln(0, "import org.junit.After;")
 		switch f.ImportStyle {
@@ -532,6 +798,9 @@ func render(c Case, f File) fileTruth {
 		}
 	}
 	w.ln(0, "import java.util.concurrent.TimeUnit;")
+	if f.Imports == 1 {
+		w.ln(0, "import java.util.concurrent.TimeUnit;")
+	}
 	w.ln(0, "")
 	switch f.ClassAnnot {
 	case 1:
@@ -554,6 +823,19 @@ func render(c Case, f File) fileTruth {
 	} else {
 		w.ln(1, "private OrderService service;")
 	}
+	w.ln(1, "private OrderMock orderMock, orderMock2;")
+	w.ln(1, "private LedgerMock ledgerMock;")
+	w.ln(1, "private PrintStream out;")
+	w.ln(1, "private PrintWriter writer;")
+	if f.Peer != "" {
+		w.ln(1, "private "+f.Peer+" peer;")
+	}
+	switch f.LongLine {
+	case 1:
+		w.ln(1, "// "+strings.Repeat("Thread.sleep(1); ", 300))
+	case 2:
+		w.ln(1, "private String blob = \""+strings.Repeat("System.out.println(1); ", 3100)+"\";")
+	}
 	if f.Constructor {
 		w.ln(1, "public "+f.Name+"() throws Exception {")
 		w.ln(2, "System.out.println(\"constructing\");")
@@ -569,6 +851,9 @@ func render(c Case, f File) fileTruth {
 	}
 	w.ln(0, "}")
 	t.Text = w.sb.String()
+	if f.NoFinalNewline {
+		t.Text = strings.TrimSuffix(t.Text, "\n")
+	}
 	if f.CRLF {
 		t.Text = strings.ReplaceAll(t.Text, "\n", "\r\n")
 	}
@@ -809,12 +1094,43 @@ func renderAll(c Case) []fileTruth {
 	return truths
 }
 
-func writeTree(root string, truths []fileTruth) {
+func writeTree(root string, truths []fileTruth, extras []ExtraFile) {
 	files := map[string]string{}
 	for _, t := range truths {
 		files[t.Rel] = t.Text
 	}
+	for _, e := range extras {
+		if _, taken := files[e.Rel]; taken {
+			panic("GENERATOR BUG: extra file " + e.Rel + " collides with another file of the tree")
+		}
+		switch e.Kind {
+		case "copy":
+			// the text of a test file, evidence and all, under a name that is no Java source name
+			if isTestFileName(e.Rel) || e.Copy < 0 || e.Copy >= len(truths) {
+				panic("GENERATOR BUG: extra file " + e.Rel)
+			}
+			files[e.Rel] = truths[e.Copy].Text
+		case "gitignore":
+			// none of these patterns matches a file of the tree (the tree lies in a directory
+			// named proj; patterns are relative to the directory of the .gitignore)
+			files[e.Rel] = "# build output\ntarget/\n*.class\n/proj/\nproj/\n/tmp/\n*Test.jav\n!*.keep\n"
+		case "pkginfo":
+			i := strings.Index(e.Rel, "src/test/java/")
+			if i < 0 || !strings.HasSuffix(e.Rel, "/package-info.java") {
+				panic("GENERATOR BUG: extra file " + e.Rel)
+			}
+			dir := strings.TrimSuffix(e.Rel[i+len("src/test/java/"):], "/package-info.java")
+			files[e.Rel] = "/** @Test @Ignore Thread.sleep(1); */\npackage " + strings.ReplaceAll(dir, "/", ".") + ";\n"
+		default:
+			panic("GENERATOR BUG: extra file kind " + e.Kind)
+		}
+	}
 	cli.WriteTree(root, files)
+}
+
+// isTestFileName is the statement's notion of a test file, applied to a path of the tree.
+func isTestFileName(rel string) bool {
+	return strings.HasSuffix(rel, ".java") && (strings.HasSuffix(rel, "Test.java") || strings.HasSuffix(rel, "Tests.java") || strings.Contains("/"+rel, "/src/test/java/"))
 }
 
 func texts(truths []fileTruth) string {
@@ -823,6 +1139,9 @@ func texts(truths []fileTruth) string {
 		fmt.Fprintf(&sb, "----- %s (%s) -----\n", t.Rel, t.Role)
 		lines := strings.Split(strings.TrimSuffix(t.Text, "\n"), "\n")
 		for i, l := range lines {
+			if r := []rune(l); len(r) > 240 {
+				l = fmt.Sprintf("%s … (%d characters)", string(r[:200]), len(r))
+			}
 			fmt.Fprintf(&sb, "%3d| %s\n", i+1, l)
 		}
 	}
@@ -867,11 +1186,19 @@ func checkAPI(c Case) pbt.Verdict {
 	root := cli.Scratch("c11-")
 	defer os.RemoveAll(root)
 	src := filepath.Join(root, "proj")
-	writeTree(src, truths)
+	writeTree(src, truths, c.Extras)
+	priorSrc := filepath.Join(root, "earlier")
+	if len(c.Prior) > 0 {
+		writeTree(priorSrc, renderAll(priorCase(c)), nil)
+	}
 	resetState()
 	var result, again, second []tbs.TestBadSmell
 	if p := pbt.Call(func() {
 		quiet(func() {
+			if len(c.Prior) > 0 {
+				// another tree first, in this process and without any reset in between
+				pipeline(priorSrc)
+			}
 			var classNodes []core_domain.CodeDataStruct
 			var identifiersMap map[string]core_domain.CodeDataStruct
 			result, classNodes, identifiersMap = pipeline(src)
@@ -906,6 +1233,11 @@ func checkAPI(c Case) pbt.Verdict {
 		}
 	}
 	return classify(c, truths, src, "api")
+}
+
+// priorCase is the tree analysed before the judged one.
+func priorCase(c Case) Case {
+	return Case{Layout: c.Layout, Module: c.Module, Files: c.Prior}
 }
 
 // stable reduces a panic trace to its first line and the frames (function names only): rapid
@@ -967,7 +1299,7 @@ func checkCLI(c Case) pbt.Verdict {
 	root := cli.Scratch("c11-")
 	defer os.RemoveAll(root)
 	src := filepath.Join(root, "proj")
-	writeTree(src, truths)
+	writeTree(src, truths, c.Extras)
 	// how the directory is named on the command line; the report names files below it
 	cwd, dirArg, nameRoot := root, src, src
 	if c.RelDir {
@@ -981,15 +1313,51 @@ func checkCLI(c Case) pbt.Verdict {
 	case 3:
 		cwd, dirArg, nameRoot = src, "", "."
 	}
-	args := []string{"tbs"}
-	if dirArg != "" {
-		args = append(args, "-p", dirArg)
+	// the spellings of the two options
+	build := func(dir string, sorted bool) []string {
+		args := []string{"tbs"}
+		if dir != "" {
+			switch c.ArgStyle {
+			case 1:
+				args = append(args, "--path", dir)
+			case 2:
+				args = append(args, "--path="+dir)
+			case 3:
+				args = append(args, "-p="+dir)
+			default:
+				args = append(args, "-p", dir)
+			}
+		}
+		if sorted {
+			args = append(args, []string{"-s", "--sort", "--sort=true", "-s=true"}[c.ArgStyle%4])
+		}
+		return args
 	}
-	if c.Sort {
-		args = append(args, "-s")
-	}
+	args := build(dirArg, c.Sort)
+	what := ""
 	fail := func(msg string) pbt.Verdict {
-		return pbt.Fail("coca %s (dirStyle %d): %s\n%s", strings.ReplaceAll(strings.Join(args, " "), root, "<CWD>"), c.DirStyle, strings.ReplaceAll(msg, root, "<CWD>"), texts(truths))
+		return pbt.Fail("%scoca %s (dirStyle %d): %s\n%s", what, strings.ReplaceAll(strings.Join(args, " "), root, "<CWD>"), c.DirStyle, strings.ReplaceAll(msg, root, "<CWD>"), texts(truths))
+	}
+	// earlier runs in the same working directory (they leave their coca_reporter behind):
+	// another tree, and / or the same tree with the other setting of -s
+	var earlier [][]string
+	if len(c.Prior) > 0 {
+		writeTree(filepath.Join(root, "earlier"), renderAll(priorCase(c)), nil)
+		earlier = append(earlier, build(filepath.Join(root, "earlier"), false))
+	}
+	if c.Twice {
+		earlier = append(earlier, build(dirArg, !c.Sort))
+	}
+	for _, first := range earlier {
+		r, err := cli.Run("coca", cwd, nil, first...)
+		if err != nil {
+			panic("HARNESS: cannot run coca: " + err.Error())
+		}
+		if r.TimedOut || r.ExitCode != 0 {
+			args = first
+			return fail(fmt.Sprintf("timed out or exit status %d\n%s", r.ExitCode, tail(r.Stderr, 1500)))
+		}
+		what = "after `coca " + strings.ReplaceAll(strings.Join(first, " "), root, "<CWD>") + "` in the same working directory: "
 	}
 	res, err := cli.Run("coca", cwd, nil, args...)
 	if err != nil {
@@ -1088,6 +1456,24 @@ func classify(c Case, truths []fileTruth, root string, mode string) pbt.Verdict 
 				if len(kinds) > 0 {
 					labels["unannotated_method_with_atoms"] = true
 				}
+				if m.Spec.Kind == "plain" && strings.Contains(m.Spec.Name, "_") && len(kinds) > 0 {
+					labels["unannotated_method_named_like_a_test"] = true
+				}
+				if m.Spec.Kind == "helper" {
+					if m.Spec.Params > 0 {
+						labels["helper_with_parameters"] = true
+					}
+					if m.Spec.Compact || m.Spec.BraceNext {
+						labels["helper_layout_variant"] = true
+					}
+					known := false
+					for _, n := range helperNames {
+						known = known || n == m.Spec.Name
+					}
+					if !known {
+						labels["helper_name_variant"] = true
+					}
+				}
 				if m.Spec.Annot != "" && len(kinds) > 0 {
 					labels["lifecycle_method_with_atoms"] = true
 				}
@@ -1098,6 +1484,84 @@ func classify(c Case, truths []fileTruth, root string, mode string) pbt.Verdict 
 			}
 			if m.Spec.Extra > 0 {
 				labels["test_with_third_annotation"] = true
+			}
+			// audit widening
+			if !strings.HasPrefix(m.Spec.Name, "scenario") {
+				labels["test_name_from_word_list"] = true
+			}
+			if m.Spec.AnnotForm > 0 {
+				labels[fmt.Sprintf("annotation_form_%d", m.Spec.AnnotForm)] = true
+			}
+			if m.Spec.Qualified > 0 {
+				labels["annotation_with_package_name"] = true
+			}
+			if m.Spec.ModsFirst && m.Spec.Mods != "" {
+				labels["modifiers_before_annotations"] = true
+			}
+			if strings.Contains(m.Spec.Mods, " ") {
+				labels["test_with_two_modifiers"] = true
+			}
+			if m.Spec.BraceNext {
+				labels["brace_on_next_line"] = true
+			}
+			if m.Spec.Compact && len(m.Calls) > 0 {
+				labels["test_method_on_one_line"] = true
+			}
+			if m.Spec.Doc > 0 {
+				labels[fmt.Sprintf("comment_quoting_patterns_%d", m.Spec.Doc)] = true
+			}
+			if m.Spec.Params > 0 {
+				labels["test_with_parameter"] = true
+			}
+			for _, n := range []int{8, 16, 32, 64} {
+				if len(m.Calls) > n {
+					labels[fmt.Sprintf("test_with_more_than_%d_calls", n)] = true
+				}
+			}
+			mockTypes, mockFieldsUsed, mockTotal := map[string]int{}, map[string]bool{}, 0
+			for _, a := range m.Spec.Atoms {
+				if a.OneLine && a.K >= 2 && a.Kind != "fill" {
+					labels["statements_on_one_line"] = true
+					if a.Kind == "print" || a.Kind == "sleep" {
+						labels["prints_or_sleeps_on_one_line"] = true
+					}
+				}
+				if a.Spaced > 0 && a.Kind != "fill" && a.Kind != "create" {
+					labels[fmt.Sprintf("blanks_between_tokens_%d", a.Spaced)] = true
+				}
+				switch {
+				case a.Kind == "print" && a.Variant%6 == 4, a.Kind == "sleep" && a.Variant%4 == 2:
+					labels["print_or_sleep_with_identical_arguments"] = true
+				case a.Kind == "print" && a.Variant%6 == 5, a.Kind == "sleep" && a.Variant%4 == 3:
+					labels["call_as_argument_of_print_or_sleep"] = true
+				case a.Kind == "sleep" && a.Variant%4 == 1:
+					labels["sleep_with_two_arguments"] = true
+				case a.Kind == "same2" && a.Variant%9 >= 7, a.Kind == "diff2" && a.Variant%10 == 9:
+					labels["comma_inside_an_argument"] = true
+				case a.Kind == "diff2" && a.Variant%10 == 8:
+					labels["second_argument_prefix_of_first"] = true
+				case a.Kind == "assert" && a.Name == "assertThat" && a.Variant%2 == 1:
+					labels["assertThat_with_is_matcher"] = true
+				case a.Kind == "neutral" && a.Variant%20 >= 14:
+					labels["neutral_look_alike_audit"] = true
+				case a.Kind == "peer":
+					labels["helper_of_another_test_class_called"] = true
+				case a.Kind == "helper" && a.Args > 0:
+					labels[fmt.Sprintf("helper_called_with_%d_arguments", a.Args)] = true
+					if a.Args == 2 && a.SameArgs {
+						labels["helper_called_with_identical_arguments"] = true
+					}
+				case a.Kind == "mock":
+					mockTypes[mockType(a.Name)] += a.K
+					mockFieldsUsed[a.Name] = true
+					mockTotal += a.K
+				}
+			}
+			if len(mockTypes) == 2 && mockTotal >= 5 && mockTypes["OrderMock"] < 5 && mockTypes["LedgerMock"] < 5 {
+				labels["assertion_name_5+_times_on_two_classes"] = true
+			}
+			if len(mockTypes) == 1 && len(mockFieldsUsed) == 2 && mockTotal >= 5 {
+				labels["assertion_method_5+_times_through_two_fields"] = true
 			}
 			byName := map[string]int{}
 			for _, a := range m.Spec.Atoms {
@@ -1113,7 +1577,7 @@ func classify(c Case, truths []fileTruth, root string, mode string) pbt.Verdict 
 						labels["atom_inside_"+a.Wrap] = true
 					}
 				}
-				if a.Kind == "neutral" && a.Variant%14 >= 8 {
+				if a.Kind == "neutral" && a.Variant%20 >= 8 {
 					labels["neutral_look_alike_w4"] = true
 				}
 				if a.Kind == "helper" && a.Variant%3 == 2 {
@@ -1263,7 +1727,58 @@ func classify(c Case, truths []fileTruth, root string, mode string) pbt.Verdict 
 	if len(truths) > 1 {
 		labels["files>=2"] = true
 	}
+	nTestFiles := 0
 	for _, f := range c.Files {
+		// audit widening
+		if f.Role == "test" {
+			nTestFiles++
+			nTests := 0
+			for _, m := range f.Methods {
+				if m.Kind == "test" {
+					nTests++
+				}
+			}
+			switch {
+			case nTests == 0:
+				labels["test_class_without_test_method"] = true
+			case nTests > 16:
+				labels["test_class_with_more_than_16_tests"] = true
+			case nTests > 8:
+				labels["test_class_with_more_than_8_tests"] = true
+			}
+			if c.Layout == "maven" && f.Package == "" {
+				labels["maven_default_package"] = true
+			}
+			if f.Peer != "" {
+				labels["field_of_another_test_class"] = true
+			}
+		}
+		for _, odd := range oddSubjects {
+			if strings.HasPrefix(f.Name, odd) && f.Role == "test" {
+				labels["class_name_from_word_list"] = true
+			}
+		}
+		if f.Role == "prod" && (strings.HasSuffix(f.Name, "test") || strings.HasSuffix(f.Name, "tests") || strings.HasSuffix(f.Name, "TEST")) {
+			labels["production_file_with_suffix_in_other_case"] = true
+		}
+		switch f.SubDir {
+		case "testdata", "it/TestData", "unit tests", "unit-tests", "ünit", "test-data":
+			labels["directory_name_variant"] = true
+		case "src/integration-test/java", "src/tests/java", "test/java", "src/test", "src/test/Java":
+			labels["production_directory_resembling_src_test_java"] = true
+		}
+		if f.NoFinalNewline {
+			labels["no_final_newline"] = true
+		}
+		if f.LeadingBlank > 0 {
+			labels["leading_blank_lines"] = true
+		}
+		if f.Imports > 0 {
+			labels[fmt.Sprintf("import_variant_%d", f.Imports)] = true
+		}
+		if f.LongLine > 0 {
+			labels[fmt.Sprintf("long_line_%d", f.LongLine)] = true
+		}
 		if f.ClassAnnot >= 2 && f.Role == "test" {
 			labels["class_level_ignore"] = true
 		}
@@ -1276,6 +1791,26 @@ func classify(c Case, truths []fileTruth, root string, mode string) pbt.Verdict 
 		if f.Role == "prod" && (strings.Contains(strings.ToLower(f.Name), "test") || strings.Contains(f.SubDir, "test")) {
 			labels["production_file_with_test_in_its_path"] = true
 		}
+	}
+	if nTestFiles > 16 {
+		labels["more_than_16_test_files"] = true
+	} else if nTestFiles > 8 {
+		labels["more_than_8_test_files"] = true
+	}
+	for _, e := range c.Extras {
+		labels["extra_file_"+e.Kind] = true
+	}
+	if len(c.Prior) > 0 {
+		labels["another_tree_analysed_first"] = true
+		if c.Files[0].Role == "test" && c.Prior[0].Name == c.Files[0].Name && c.Prior[0].Package == c.Files[0].Package {
+			labels["earlier_tree_has_a_class_of_the_same_name"] = true
+		}
+	}
+	if c.ArgStyle != 0 {
+		labels[fmt.Sprintf("cli_option_spelling_%d", c.ArgStyle)] = true
+	}
+	if c.Twice {
+		labels["cli_same_tree_twice_with_other_sort_setting"] = true
 	}
 	if c.Repeat {
 		labels["pipeline_twice_in_one_process"] = true
@@ -1306,7 +1841,28 @@ var (
 	assert2Names  = []string{"assertEquals", "assertSame", "assertArrayEquals", "assertNotEquals", "assertIterableEquals", "assertNotSame"}
 	neutral2Names = []string{"put", "max", "equals", "register"}
 	helperAsserts = []string{"assertNotNull", "assertTrue", "assertEquals"}
+
+	// audit widening. Helper names: the i-th helper of a class takes one of helperNameSets[i];
+	// the sets hold prefixes, extensions and case variants of each other and names with $, _,
+	// digits and non-ASCII letters; none starts with a prefix of the tool's assertion list.
+	helperNameSets = [][]string{
+		{"prepareFixture", "prepare", "préparer$1", "p"},
+		{"runScenario", "prepareFixtures", "run_all_2", "runScenarioWithAVeryLongNameThatGoesOnAndOnAndOnUntilItIsLongerThanAnyReasonableName"},
+		{"exerciseAll", "preparefixture", "PrepareFixture", "übung"},
+	}
+	// names of test methods (an index is appended): words the tool treats specially in
+	// callee names, JUnit 3 style, $ _ digits, non-ASCII, one letter, very long
+	testNameBases = []string{"shouldReturnTotal", "testIsEmpty", "verifiesOrder", "checkLimits", "isOpen", "assertsNothing", "sleep", "println",
+		"ignore", "test", "t", "überprüfeSumme", "$_case_", "specifiedBehaviourOfAVeryLongTestMethodNameThatDescribesTheWholeScenarioInWordsAndThenSomeMore"}
+	// names of methods without @Test/@Ignore that look like tests by name
+	plainNameBases = []string{"testLegacy", "shouldNotRun", "ignoredCase", "test", "sleepyPrint"}
+	mockFields     = []string{"orderMock", "orderMock2", "ledgerMock"}
+	// class names: special words, near misses of the tool's testData rule, $ _ digits, non-ASCII, one letter, long
+	oddSubjects = []string{"Thread", "System", "Assert", "Ignore", "OrderTestData", "TestData", "Ünïcode", "Order_$2", "A",
+		"TheOrderServiceIntegrationScenarioForTheBillingSubsystemOfTheWarehouseManagementApplication"}
 )
+
+const qualifiedFeature = "qualified_test_annotation"
 
 func rare(t *rapid.T, label string, n int) bool {
 	return rapid.IntRange(0, n).Draw(t, label) == n
@@ -1335,7 +1891,37 @@ func genMultiplicity(t *rapid.T, label string, around bool) int {
 
 // genAtom draws one atom. inHelper restricts to what a called helper may contain without
 // making the expected findings of its callers depend on a reading the statement leaves open.
-func genAtom(t *rapid.T, helpers []string, inHelper bool) Atom {
+func genAtom(t *rapid.T, helpers []string, inHelper bool, helperParams map[string]int) Atom {
+	a := genAtomCore(t, helpers, inHelper, helperParams)
+	if inHelper {
+		return a
+	}
+	// audit widening: layout of the K statements
+	switch a.Kind {
+	case "print", "sleep", "same2", "diff2", "assert", "neutral", "mock", "helper":
+		if a.K >= 2 && rare(t, "oneLine", 5) {
+			a.OneLine, a.Split = true, false
+		}
+		if rare(t, "spaced", 7) {
+			a.Spaced = rapid.IntRange(1, 2).Draw(t, "spacedMode")
+		}
+	}
+	return a
+}
+
+// helperCall is one call of the helper name with as many arguments as it has parameters.
+func helperCall(t *rapid.T, name string, helperParams map[string]int) Atom {
+	a := Atom{Kind: "helper", K: 1, Name: name, Args: helperParams[name]}
+	if a.Args == 2 {
+		a.SameArgs = rare(t, "sameArgs", 2)
+	}
+	return a
+}
+
+func genAtomCore(t *rapid.T, helpers []string, inHelper bool, helperParams map[string]int) Atom {
+	if !inHelper && rare(t, "mockAtom", 11) {
+		return Atom{Kind: "mock", Name: rapid.SampledFrom(mockFields).Draw(t, "mockField"), K: genMultiplicity(t, "k", true)}
+	}
 	if inHelper {
 		switch rapid.IntRange(0, 4).Draw(t, "helperAtom") {
 		case 0:
@@ -1359,6 +1945,12 @@ func genAtom(t *rapid.T, helpers []string, inHelper bool) Atom {
 		a.K = genMultiplicity(t, "k", true)
 		a.Wrap = genWrap(t)
 		a.Split = rare(t, "split", 5)
+		if a.Name == "assertThat" && rare(t, "hamcrest", 1) {
+			a.Variant = 1
+		}
+		if rare(t, "bigK", 30) {
+			a.K = rapid.SampledFrom([]int{9, 17, 33}).Draw(t, "bigKValue")
+		}
 	case "diff2":
 		if rare(t, "neutral2", 3) {
 			a.Name = rapid.SampledFrom(neutral2Names).Draw(t, "name2")
@@ -1368,6 +1960,9 @@ func genAtom(t *rapid.T, helpers []string, inHelper bool) Atom {
 		a.K = genMultiplicity(t, "k", true)
 		a.Variant = rapid.IntRange(0, 7).Draw(t, "variant")
 		a.Split = rare(t, "split", 5)
+		if rare(t, "moreArgTexts", 5) {
+			a.Variant = rapid.IntRange(8, 9).Draw(t, "argTexts")
+		}
 	case "same2":
 		if rare(t, "neutral2", 2) {
 			a.Name = rapid.SampledFrom(neutral2Names).Draw(t, "name2")
@@ -1378,11 +1973,17 @@ func genAtom(t *rapid.T, helpers []string, inHelper bool) Atom {
 		a.Variant = rapid.IntRange(0, 6).Draw(t, "variant")
 		a.Wrap = genWrap(t)
 		a.Split = rare(t, "split", 5)
+		if rare(t, "moreArgTexts", 5) {
+			a.Variant = rapid.IntRange(7, 8).Draw(t, "argTexts") // a comma inside each argument
+		}
 	case "print":
 		a.K = genMultiplicity(t, "k", false)
 		a.Variant = rapid.IntRange(0, 3).Draw(t, "variant")
 		a.Wrap = genWrap(t)
 		a.Split = rare(t, "split", 3)
+		if rare(t, "printForm", 5) {
+			a.Variant = rapid.IntRange(4, 5).Draw(t, "printFormKind") // identical arguments / a call as argument
+		}
 	case "sleep":
 		a.K = genMultiplicity(t, "k", false)
 		if rapid.Bool().Draw(t, "sleepInTry") {
@@ -1391,11 +1992,20 @@ func genAtom(t *rapid.T, helpers []string, inHelper bool) Atom {
 			a.Wrap = genWrap(t)
 		}
 		a.Split = rare(t, "split", 3)
+		if rare(t, "sleepForm", 4) {
+			a.Variant = rapid.IntRange(1, 3).Draw(t, "sleepFormKind") // two arguments (different / identical), a call as argument
+		}
 	case "neutral":
 		a.K = genMultiplicity(t, "k", true)
 		a.Variant = rapid.IntRange(0, 13).Draw(t, "variant")
 		a.Wrap = genWrap(t)
 		a.Split = rare(t, "split", 5)
+		if rare(t, "moreLookAlikes", 4) {
+			a.Variant = rapid.IntRange(14, 19).Draw(t, "lookAlike")
+		}
+		if rare(t, "bigK", 30) {
+			a.K = rapid.SampledFrom([]int{9, 17, 33, 65}).Draw(t, "bigKValue") // a body with more than 8 / 16 / 32 / 64 calls
+		}
 	case "create":
 		a.K = rapid.IntRange(1, 2).Draw(t, "k")
 	case "fill":
@@ -1404,7 +2014,7 @@ func genAtom(t *rapid.T, helpers []string, inHelper bool) Atom {
 		if len(helpers) == 0 {
 			return Atom{Kind: "fill", K: 1}
 		}
-		a.Name = rapid.SampledFrom(helpers).Draw(t, "helper")
+		a = helperCall(t, rapid.SampledFrom(helpers).Draw(t, "helper"), helperParams)
 		a.K = rapid.IntRange(1, 2).Draw(t, "k")
 		if rare(t, "qualified", 2) {
 			a.Variant = rapid.IntRange(1, 2).Draw(t, "qualifier") // this.helper() / OwnClass.helper()
@@ -1420,14 +2030,22 @@ func callsOf(atoms []Atom, helperCallCount map[string]int) (direct, total int) {
 		switch a.Kind {
 		case "fill":
 			per = 0
+		case "print":
+			if a.Variant%6 == 5 {
+				per = 2
+			}
+		case "sleep":
+			if a.Variant%4 == 3 {
+				per = 2
+			}
 		case "same2":
-			if a.Variant%7 == 6 {
+			if a.Variant%9 == 6 || a.Variant%9 == 8 {
 				per = 3
 			}
 		case "diff2":
-			if a.Variant%8 == 6 {
+			if a.Variant%10 == 6 {
 				per = 2
-			} else if a.Variant%8 == 7 {
+			} else if a.Variant%10 == 7 {
 				per = 3
 			}
 		case "assert":
@@ -1500,8 +2118,25 @@ func fixTestAtoms(atoms []Atom, helperAtoms map[string][]Atom) []Atom {
 	return out
 }
 
-func genTestMethod(t *rapid.T, idx int, helpers []string, helperAtoms map[string][]Atom, helperCallCount map[string]int, prev *Method) Method {
+// genMethodLayout draws how a method is laid out (audit widening).
+func genMethodLayout(t *rapid.T, m *Method) {
+	if rare(t, "methodLayout", 3) {
+		switch rapid.IntRange(0, 2).Draw(t, "methodLayoutKind") {
+		case 0:
+			m.BraceNext = true
+		case 1:
+			m.Compact = true
+		default:
+			m.BraceNext, m.Compact = true, true
+		}
+	}
+}
+
+func genTestMethod(t *rapid.T, idx int, helpers []string, helperAtoms map[string][]Atom, helperCallCount map[string]int, prev *Method, helperParams map[string]int) Method {
 	m := Method{Kind: "test", Name: fmt.Sprintf("scenario%d", idx)}
+	if rare(t, "testName", 3) {
+		m.Name = fmt.Sprintf("%s%d", rapid.SampledFrom(testNameBases).Draw(t, "testNameBase"), idx)
+	}
 	m.Annot = rapid.SampledFrom([]string{"T", "T", "T", "I", "TI", "IT"}).Draw(t, "annot")
 	if rare(t, "annotArgs", 3) {
 		m.AnnotArgs = rapid.IntRange(1, 3).Draw(t, "annotArgsKind")
@@ -1513,16 +2148,52 @@ func genTestMethod(t *rapid.T, idx int, helpers []string, helperAtoms map[string
 		m.Extra = rapid.IntRange(1, plainExtraFrom-1).Draw(t, "extra")
 		m.ExtraPos = rapid.IntRange(0, 2).Draw(t, "extraPos")
 	}
+	// audit widening: spellings of the annotations and of the declaration
+	if rare(t, "annotForm", 4) {
+		m.AnnotForm = rapid.IntRange(1, 4).Draw(t, "annotFormKind")
+	}
+	if rare(t, "qualifiedAnnotation", 7) && !pbt.Excluded(qualifiedFeature) {
+		m.Qualified = rapid.IntRange(1, 3).Draw(t, "qualifiedWhich")
+	}
+	if m.Mods != "" {
+		m.ModsFirst = rare(t, "modsFirst", 6)
+		if rare(t, "moreMods", 6) {
+			m.Mods = rapid.SampledFrom([]string{"public final", "public synchronized", "synchronized public", "final public"}).Draw(t, "modsKind")
+		}
+	}
+	if rare(t, "testParameter", 7) {
+		m.Params = 1
+	}
+	if rare(t, "docComment", 5) {
+		m.Doc = rapid.IntRange(1, 3).Draw(t, "docKind")
+	}
+	genMethodLayout(t, &m)
 	atoms := []Atom{}
 	if prev != nil && rare(t, "cloneOfPrevious", 4) {
 		// a copy of the previous test method of the class under another name
 		atoms = append(atoms, prev.Atoms...)
+	} else if rare(t, "mockPair", 9) {
+		// one assertion name called on two fields, five or six times in all: the fields are of
+		// one class (one assertion method) or of two (two methods of the same name)
+		total := rapid.SampledFrom([]int{5, 6}).Draw(t, "mockTotal")
+		first := rapid.IntRange(1, 4).Draw(t, "mockFirst")
+		atoms = append(atoms, Atom{Kind: "mock", Name: "orderMock", K: first},
+			Atom{Kind: "mock", Name: rapid.SampledFrom([]string{"ledgerMock", "orderMock2"}).Draw(t, "mockSecond"), K: total - first})
+		if rapid.Bool().Draw(t, "mockSwap") {
+			atoms[0], atoms[1] = atoms[1], atoms[0]
+		}
+		if rapid.Bool().Draw(t, "oneMore") {
+			pos := rapid.IntRange(0, len(atoms)).Draw(t, "onePos")
+			atoms = append(atoms[:pos], append([]Atom{genAtom(t, helpers, false, helperParams)}, atoms[pos:]...)...)
+		}
 	} else if len(helpers) >= 2 && rare(t, "throughSeveralHelpers", 4) {
 		// nothing but calls of two or three helpers (and perhaps a neutral call): whether the
 		// test asserts depends on all of them
 		order := rapid.Permutation(helpers).Draw(t, "helperOrder")
 		for _, h := range order {
-			atoms = append(atoms, Atom{Kind: "helper", K: 1, Name: h, Variant: rapid.IntRange(0, 2).Draw(t, "qualifier")})
+			a := helperCall(t, h, helperParams)
+			a.Variant = rapid.IntRange(0, 2).Draw(t, "qualifier")
+			atoms = append(atoms, a)
 		}
 		if rapid.Bool().Draw(t, "neutralToo") {
 			pos := rapid.IntRange(0, len(atoms)).Draw(t, "neutralPos")
@@ -1531,7 +2202,7 @@ func genTestMethod(t *rapid.T, idx int, helpers []string, helperAtoms map[string
 	} else {
 		n := rapid.IntRange(0, 4).Draw(t, "atoms")
 		for i := 0; i < n; i++ {
-			atoms = append(atoms, genAtom(t, helpers, false))
+			atoms = append(atoms, genAtom(t, helpers, false, helperParams))
 		}
 		if len(atoms) > 0 && rare(t, "sameAssertionAgain", 3) {
 			// the same assertion once more in another place of the body, the total around the limit
@@ -1577,6 +2248,10 @@ func genTestMethod(t *rapid.T, idx int, helpers []string, helperAtoms map[string
 func genFile(t *rapid.T, c *Case, role string, idx int, used map[string]bool) File {
 	f := File{Role: role}
 	subject := rapid.SampledFrom(subjects).Draw(t, "subject")
+	oddSubject := rare(t, "oddSubject", 6)
+	if oddSubject {
+		subject = rapid.SampledFrom(oddSubjects).Draw(t, "oddSubjectName")
+	}
 	suffix := ""
 	if role == "test" {
 		suffix = "Test"
@@ -1588,7 +2263,7 @@ func genFile(t *rapid.T, c *Case, role string, idx int, used map[string]bool) Fi
 		}
 	} else if rare(t, "prodNamedTest", 2) {
 		// names with "Test" / "test" in them that are not test file names
-		switch rapid.IntRange(0, 4).Draw(t, "prodNameKind") {
+		switch rapid.IntRange(0, 7).Draw(t, "prodNameKind") {
 		case 0:
 			subject = "Test" + subject // TestOrderSupport.java: "Test" at the front
 			suffix = "Support"
@@ -1598,8 +2273,15 @@ func genFile(t *rapid.T, c *Case, role string, idx int, used map[string]bool) Fi
 			suffix = "TestBase"
 		case 3:
 			suffix = "Testing"
-		default:
+		case 4:
 			subject = "Contest" + subject
+		// audit widening: the suffix in another case (Ordertest.java, Ordertests.java, OrderTEST.java)
+		case 5:
+			suffix = "test"
+		case 6:
+			suffix = "tests"
+		default:
+			suffix = "TEST"
 		}
 	}
 	f.Name = subject + suffix
@@ -1611,17 +2293,28 @@ func genFile(t *rapid.T, c *Case, role string, idx int, used map[string]bool) Fi
 	}
 	if c.Layout == "maven" {
 		f.Package = "com.acme." + strings.ToLower(strings.TrimPrefix(strings.TrimPrefix(subject, "Test"), "Contest"))
+		if oddSubject {
+			f.Package = "com.acme.misc" // `assert` is a keyword, `$` and long names make no good directory names
+		}
 		if rare(t, "shortPackage", 4) {
 			f.Package = "shop"
+		}
+		if rare(t, "defaultPackage", 9) {
+			f.Package = "" // directly in src/test/java (src/main/java)
 		}
 		if twin {
 			f.Package = "com.acme.other"
 		}
 	} else {
 		f.SubDir = rapid.SampledFrom([]string{"", "", "tests", "unit/core"}).Draw(t, "subDir")
+		if rare(t, "oddSubDir", 6) {
+			// near misses of the tool's testData rule, a blank, a non-ASCII letter
+			f.SubDir = rapid.SampledFrom([]string{"testdata", "it/TestData", "unit tests", "ünit", "test-data"}).Draw(t, "oddSubDirName")
+		}
 		if role == "prod" && rare(t, "prodDirNamedTest", 2) {
 			// directories that resemble src/test/java without being it
-			f.SubDir = rapid.SampledFrom([]string{"test", "src/testing/java", "src/test/resources", "latest", "src/test/javax"}).Draw(t, "prodSubDir")
+			f.SubDir = rapid.SampledFrom([]string{"test", "src/testing/java", "src/test/resources", "latest", "src/test/javax",
+				"src/integration-test/java", "src/tests/java", "test/java", "src/test", "src/test/Java"}).Draw(t, "prodSubDir")
 		}
 		if twin {
 			f.SubDir = "other"
@@ -1653,13 +2346,24 @@ func genFile(t *rapid.T, c *Case, role string, idx int, used map[string]bool) Fi
 		f.ClassAnnot = rapid.IntRange(1, 3).Draw(t, "classAnnot")
 	}
 	f.Extends = rare(t, "extends", 3)
+	// audit widening: layout of the file
+	f.NoFinalNewline = rare(t, "noFinalNewline", 5)
+	if rare(t, "leadingBlank", 5) {
+		f.LeadingBlank = rapid.IntRange(1, 3).Draw(t, "leadingBlankLines")
+	}
+	if rare(t, "importVariant", 4) {
+		f.Imports = rapid.IntRange(1, 2).Draw(t, "importVariantKind")
+	}
+	if rare(t, "longLine", 14) {
+		f.LongLine = rapid.IntRange(1, 2).Draw(t, "longLineKind")
+	}
 
 	if role == "prod" {
 		n := rapid.IntRange(0, 3).Draw(t, "prodMethods")
 		for i := 0; i < n; i++ {
 			if rare(t, "annotatedInProd", 2) {
 				// @Test / @Ignore on a method of a file that is no test file: still no finding
-				m := genTestMethod(t, i, nil, nil, nil, nil)
+				m := genTestMethod(t, i, nil, nil, nil, nil, nil)
 				m.Name = fmt.Sprintf("selfCheck%d", i)
 				f.Methods = append(f.Methods, m)
 				continue
@@ -1667,7 +2371,7 @@ func genFile(t *rapid.T, c *Case, role string, idx int, used map[string]bool) Fi
 			m := Method{Kind: "plain", Name: fmt.Sprintf("operation%d", i), Mods: "public"}
 			k := rapid.IntRange(0, 3).Draw(t, "prodAtoms")
 			for j := 0; j < k; j++ {
-				a := genAtom(t, nil, false)
+				a := genAtom(t, nil, false, nil)
 				m.Atoms = append(m.Atoms, a)
 			}
 			f.Methods = append(f.Methods, m)
@@ -1681,13 +2385,22 @@ func genFile(t *rapid.T, c *Case, role string, idx int, used map[string]bool) Fi
 	var helpers []string
 	var methods []Method
 	nh := rapid.IntRange(0, 3).Draw(t, "helpers")
+	helperParams := map[string]int{}
 	for i := 0; i < nh; i++ {
 		name := helperNames[i]
+		if rare(t, "helperName", 2) {
+			name = rapid.SampledFrom(helperNameSets[i]).Draw(t, "helperNameKind")
+		}
 		m := Method{Kind: "helper", Name: name, Mods: rapid.SampledFrom([]string{"private", "protected", "", "private static", "static"}).Draw(t, "helperMods")}
+		if rare(t, "helperParams", 2) {
+			m.Params = rapid.IntRange(1, 2).Draw(t, "helperParamCount")
+		}
+		helperParams[name] = m.Params
+		genMethodLayout(t, &m)
 		k := rapid.IntRange(0, 3).Draw(t, "helperAtoms")
 		m.Atoms = []Atom{}
 		for j := 0; j < k; j++ {
-			m.Atoms = append(m.Atoms, genAtom(t, nil, true))
+			m.Atoms = append(m.Atoms, genAtom(t, nil, true, nil))
 		}
 		_, helperCallCount[name] = callsOf(m.Atoms, nil)
 		helperAtoms[name] = m.Atoms
@@ -1695,15 +2408,23 @@ func genFile(t *rapid.T, c *Case, role string, idx int, used map[string]bool) Fi
 		methods = append(methods, m)
 	}
 	nt := rapid.IntRange(1, 4).Draw(t, "tests")
+	if rare(t, "otherTestCount", 11) {
+		// a test class without any test method; a class with more than 8 / 16 of them
+		nt = rapid.SampledFrom([]int{0, 9, 0, 17}).Draw(t, "testCount")
+	}
 	var prev *Method
 	for i := 0; i < nt; i++ {
-		m := genTestMethod(t, i, helpers, helperAtoms, helperCallCount, prev)
+		m := genTestMethod(t, i, helpers, helperAtoms, helperCallCount, prev, helperParams)
 		methods = append(methods, m)
 		prev = &m
 	}
 	np := rapid.IntRange(0, 2).Draw(t, "plainMethods")
 	for i := 0; i < np; i++ {
 		m := Method{Kind: "plain", Name: fmt.Sprintf("unused%d", i), Mods: rapid.SampledFrom([]string{"public", "private", ""}).Draw(t, "plainMods")}
+		if rare(t, "plainNamedLikeTest", 2) {
+			// JUnit 3 style and other test-like names without @Test/@Ignore
+			m.Name = fmt.Sprintf("%s_%d", rapid.SampledFrom(plainNameBases).Draw(t, "plainNameBase"), i)
+		}
 		if rare(t, "lifecycle", 1) {
 			m.Annot = rapid.SampledFrom([]string{"B", "A", "BC"}).Draw(t, "lifecycleAnnot")
 			m.Mods = "public"
@@ -1718,7 +2439,7 @@ func genFile(t *rapid.T, c *Case, role string, idx int, used map[string]bool) Fi
 		k := rapid.IntRange(0, 3).Draw(t, "plainAtoms")
 		m.Atoms = []Atom{}
 		for j := 0; j < k; j++ {
-			m.Atoms = append(m.Atoms, genAtom(t, nil, false))
+			m.Atoms = append(m.Atoms, genAtom(t, nil, false, nil))
 		}
 		methods = append(methods, m)
 	}
@@ -1741,6 +2462,9 @@ func genCase(t *rapid.T) Case {
 	used := map[string]bool{}
 	nTest := rapid.IntRange(1, 3).Draw(t, "testFiles")
 	nProd := rapid.IntRange(0, 2).Draw(t, "prodFiles")
+	if rare(t, "manyFiles", 39) {
+		nTest = rapid.SampledFrom([]int{9, 17}).Draw(t, "manyTestFiles") // more than 8 / 16 test classes
+	}
 	for i := 0; i < nTest; i++ {
 		c.Files = append(c.Files, genFile(t, &c, "test", i, used))
 	}
@@ -1748,28 +2472,150 @@ func genCase(t *rapid.T) Case {
 		c.Files = append(c.Files, genFile(t, &c, "prod", i, used))
 	}
 	c.Repeat = rare(t, "repeat", 3)
+	genPeers(t, &c)
+	genExtras(t, &c)
+	if rare(t, "priorTree", 4) {
+		genPrior(t, &c)
+	}
 	return c
+}
+
+// genPeers lets some test methods call, on a field, the helper of ANOTHER test class of the
+// tree (a class with another simple name). Only methods that make a call already get one, so
+// that no method ends up with exactly one call.
+func genPeers(t *rapid.T, c *Case) {
+	for i := range c.Files {
+		f := &c.Files[i]
+		if f.Role != "test" {
+			continue
+		}
+		type target struct {
+			class  string
+			helper Method
+		}
+		var targets []target
+		for j, o := range c.Files {
+			if j == i || o.Role != "test" || o.Name == f.Name {
+				continue
+			}
+			for _, m := range o.Methods {
+				if m.Kind == "helper" {
+					targets = append(targets, target{o.Name, m})
+				}
+			}
+		}
+		var callers []int
+		for j, m := range f.Methods {
+			if direct, _ := callsOf(m.Atoms, nil); m.Kind == "test" && direct > 0 {
+				callers = append(callers, j)
+			}
+		}
+		if len(targets) == 0 || len(callers) == 0 || !rare(t, "peerCall", 2) {
+			continue
+		}
+		// all peer calls of a class go to one other class (one field)
+		tg := rapid.SampledFrom(targets).Draw(t, "peerTarget")
+		f.Peer = tg.class
+		m := &f.Methods[rapid.SampledFrom(callers).Draw(t, "peerCaller")]
+		a := Atom{Kind: "peer", K: rapid.IntRange(1, 2).Draw(t, "k"), Name: tg.helper.Name, Args: tg.helper.Params}
+		if a.Args == 2 {
+			a.SameArgs = rare(t, "sameArgs", 2)
+		}
+		pos := rapid.IntRange(0, len(m.Atoms)).Draw(t, "peerPos")
+		atoms := append([]Atom{}, m.Atoms[:pos]...)
+		atoms = append(atoms, a)
+		m.Atoms = append(atoms, m.Atoms[pos:]...)
+	}
+}
+
+// genExtras adds files that are no Java classes.
+func genExtras(t *rapid.T, c *Case) {
+	taken := map[string]bool{}
+	for _, f := range c.Files {
+		taken[relPath(*c, f)] = true
+	}
+	add := func(e ExtraFile) {
+		if !taken[e.Rel] {
+			taken[e.Rel] = true
+			c.Extras = append(c.Extras, e)
+		}
+	}
+	if rare(t, "gitignore", 5) {
+		add(ExtraFile{Kind: "gitignore", Rel: ".gitignore"})
+	}
+	for i, f := range c.Files {
+		if f.Role != "test" {
+			continue
+		}
+		rel := relPath(*c, f)
+		if rare(t, "copyUnderOtherName", 5) {
+			// the text of the test class (evidence and all) next to it under a name that is no
+			// Java source name
+			ext := rapid.SampledFrom([]string{".java.bak", ".java~", ".txt", ".javax", ".kt", ".java.orig", "java", ".JAVA"}).Draw(t, "otherExtension")
+			add(ExtraFile{Kind: "copy", Rel: strings.TrimSuffix(rel, ".java") + ext, Copy: i})
+		}
+		if c.Layout == "maven" && f.Package != "" && rare(t, "packageInfo", 5) {
+			add(ExtraFile{Kind: "pkginfo", Rel: rel[:strings.LastIndex(rel, "/")] + "/package-info.java"})
+		}
+	}
+}
+
+// genPrior draws the tree that is analysed before the judged one: its first class has the
+// name, package and directory of the judged tree's first test class, and its own methods.
+func genPrior(t *rapid.T, c *Case) {
+	p := Case{Layout: c.Layout, Module: c.Module}
+	used := map[string]bool{}
+	n := rapid.IntRange(1, 2).Draw(t, "priorFiles")
+	for i := 0; i < n; i++ {
+		f := genFile(t, &p, "test", i, used)
+		if i == 0 && c.Files[0].Role == "test" {
+			delete(used, relPath(p, f))
+			delete(used, "class "+f.Package+"."+f.Name)
+			f.Name, f.Package, f.SubDir = c.Files[0].Name, c.Files[0].Package, c.Files[0].SubDir
+			used[relPath(p, f)] = true
+			used["class "+f.Package+"."+f.Name] = true
+		}
+		p.Files = append(p.Files, f)
+	}
+	c.Prior = p.Files
 }
 
 func genCLICase(t *rapid.T) Case {
 	c := genCase(t)
 	c.Repeat = false
+	// the printed table folds a long cell at blanks, so its rows cannot be read back for a path
+	// with a blank: directory names with a blank stay with the API check
+	for _, files := range [][]File{c.Files, c.Prior} {
+		for i := range files {
+			files[i].SubDir = strings.ReplaceAll(files[i].SubDir, " ", "-")
+		}
+	}
+	for i := range c.Extras {
+		c.Extras[i].Rel = strings.ReplaceAll(c.Extras[i].Rel, "unit tests/", "unit-tests/")
+	}
 	c.RelDir = rapid.Bool().Draw(t, "relDir")
 	if rare(t, "otherDirStyle", 2) {
 		c.DirStyle = rapid.IntRange(1, 3).Draw(t, "dirStyle")
 	}
 	c.Sort = rare(t, "sortFlag", 2)
+	if rare(t, "argStyle", 2) {
+		c.ArgStyle = rapid.IntRange(1, 3).Draw(t, "argStyleKind")
+	}
+	c.Twice = rare(t, "twice", 4)
 	return c
 }
 
 func init() {
 	pbt.SetProperty("C11")
-	pbt.Describe("Trees of 1-3 JUnit-style test classes and 0-2 production classes, flat (FooTest.java / FooTests.java next to production files, optionally in sub-directories) or Maven style ([module/]src/test/java/<package dirs>/ with class names that need not end in Test, production under src/main/java); the name of a test class may recur in another package and directory. Test methods are assembled from evidence atoms with multiplicities: System.out.println/print/printf, Thread.sleep (also inside try/catch/finally/if/else/for/while/switch/synchronized blocks and lambda bodies, also with the argument list continued on the next line), two-argument calls with identical / different argument texts (assertion and non-assertion callees), one assertion repeated k times (k around the limit: 3,4,5,6; in one run or in two places of the body), several different assertions that only together reach the limit, a non-assertion repeated five times, chains assertThat(x).isEqualTo(y) and verify(m).run(), assertThrows around a lambda, calls of same-class helpers written helper(), this.helper() or OwnClass.helper() (whose bodies hold assertions, neutral calls and creations; also tests that do nothing but call two or three helpers), neutral calls that resemble the patterns (System.err.println, System.out.format/flush, TimeUnit.SECONDS.sleep, WorkerThread.sleep, logger.print, dispatch/inspect whose names contain is/spec, three-argument calls with two equal arguments, a call named like a helper on another object), creations first/last, plain statements, comments and string literals quoting the patterns; a test method may be a copy of the previous one; @Test / @Ignore alone or together in both orders, with or without arguments, on their own lines or on the declaration line, optionally with a third annotation (@Deprecated, @SuppressWarnings, @Category, @DisplayName) before, between or after them; static-import, explicit-static-import and qualified assertion styles; class-level @RunWith / @Ignore / extends; LF or CRLF. Un-annotated methods (also with lifecycle annotations or look-alikes such as @ParameterizedTest, @TestFactory, @IgnoreIf, @Ignored, @TestOnly), production classes (also named TestXSupport, XTester, XTestBase, ContestX or lying in test/, src/testing/java, src/test/resources, src/test/javax) carry the same atoms, production classes also methods annotated @Test/@Ignore. A line-tracking printer gives the ground-truth lines. Oracle: the multiset of findings by the statement's rules, each compared by type and file, plus the call's line for RedundantPrintTest/SleepyTest, plus the owning test method (reported line anywhere between its first annotation and its closing brace) for EmptyTest/RedundantAssertionTest/UnknownTest/DuplicateAssertTest; no finding may name a non-test file; a crash is a violation. Entry points: the cmd/tbs.go pipeline through the API, with TbsApp.AnalysisPath called a second time on the same class nodes and, in one case of four, the whole pipeline run again in the same process without reset (every result judged); and `coca tbs [-p DIR] [-s]` (tbs.json as a list or grouped by type; DIR absolute, relative, ./DIR, DIR/ or the default . from inside; the printed count and table, where present, must agree with tbs.json). Non-trivial = some test method with >= 2 atom kinds, or a multiplicity 4/5/6, or both annotations; distinct = layout + per-file atom sequences.",
+	pbt.Describe("Trees of 1-3 JUnit-style test classes and 0-2 production classes, flat (FooTest.java / FooTests.java next to production files, optionally in sub-directories) or Maven style ([module/]src/test/java/<package dirs>/ with class names that need not end in Test, production under src/main/java); the name of a test class may recur in another package and directory. Test methods are assembled from evidence atoms with multiplicities: System.out.println/print/printf, Thread.sleep (also inside try/catch/finally/if/else/for/while/switch/synchronized blocks and lambda bodies, also with the argument list continued on the next line), two-argument calls with identical / different argument texts (assertion and non-assertion callees), one assertion repeated k times (k around the limit: 3,4,5,6; in one run or in two places of the body), several different assertions that only together reach the limit, a non-assertion repeated five times, chains assertThat(x).isEqualTo(y) and verify(m).run(), assertThrows around a lambda, calls of same-class helpers written helper(), this.helper() or OwnClass.helper() (whose bodies hold assertions, neutral calls and creations; also tests that do nothing but call two or three helpers), neutral calls that resemble the patterns (System.err.println, System.out.format/flush, TimeUnit.SECONDS.sleep, WorkerThread.sleep, logger.print, dispatch/inspect whose names contain is/spec, three-argument calls with two equal arguments, a call named like a helper on another object), creations first/last, plain statements, comments and string literals quoting the patterns; a test method may be a copy of the previous one; @Test / @Ignore alone or together in both orders, with or without arguments, on their own lines or on the declaration line, optionally with a third annotation (@Deprecated, @SuppressWarnings, @Category, @DisplayName) before, between or after them; static-import, explicit-static-import and qualified assertion styles; class-level @RunWith / @Ignore / extends; LF or CRLF. Un-annotated methods (also with lifecycle annotations or look-alikes such as @ParameterizedTest, @TestFactory, @IgnoreIf, @Ignored, @TestOnly), production classes (also named TestXSupport, XTester, XTestBase, ContestX or lying in test/, src/testing/java, src/test/resources, src/test/javax) carry the same atoms, production classes also methods annotated @Test/@Ignore. A line-tracking printer gives the ground-truth lines. Oracle: the multiset of findings by the statement's rules, each compared by type and file, plus the call's line for RedundantPrintTest/SleepyTest, plus the owning test method (reported line anywhere between its first annotation and its closing brace) for EmptyTest/RedundantAssertionTest/UnknownTest/DuplicateAssertTest; no finding may name a non-test file; a crash is a violation. Entry points: the cmd/tbs.go pipeline through the API, with TbsApp.AnalysisPath called a second time on the same class nodes and, in one case of four, the whole pipeline run again in the same process without reset (every result judged); and `coca tbs [-p DIR] [-s]` (tbs.json as a list or grouped by type; DIR absolute, relative, ./DIR, DIR/ or the default . from inside; the printed count and table, where present, must agree with tbs.json). Audit widening: (names) test methods named from a word list (shouldX, testX, verifiesX, checkX, isX, assertsX, sleepN, printlnN, ignoreN, one letter, $ _, non-ASCII, ~100 characters), un-annotated methods with JUnit-3-like names (testLegacy_N, shouldNotRun_N), helper names that are prefixes / extensions / case variants of each other (prepare, prepareFixture, prepareFixtures, preparefixture, PrepareFixture) or hold $ _ digits and non-ASCII letters, class names from a word list (ThreadTest, SystemTest, AssertTest, IgnoreTest, OrderTestDataTest, TestDataTest, non-ASCII, $ and _, one letter, ~90 characters), production files whose suffix differs in case only (Ordertest.java, Ordertests.java, OrderTEST.java), directories testdata, it/TestData, test-data, `unit tests` (API only), ünit, production directories src/integration-test/java, src/tests/java, test/java, src/test, src/test/Java, the default package in the Maven layout; (layout) the k statements of an atom on one source line, a whole method (annotations to closing brace) on one line, the opening brace on its own line, blanks around every . ( ) , ; of a call statement and comments after its dots, a documentation comment quoting the patterns before the annotations, a block or line comment between annotations and declaration, leading blank lines, no final newline, a comment line of 5000 and a string literal of 70000 characters, every import twice, unused imports (java.lang.Thread, java.io.PrintStream, wildcards); (spellings) @Test(), @Test(expected = X.class), @Ignore(value = \"..\"), a blank after the @, the annotations written with their package (@org.junit.Test, @org.junit.Ignore), modifiers before the annotations (public @Test void f()), two modifiers (public final, synchronized public), a parameter on a test method (TestInfo info), `coca tbs` options spelled --path DIR / --path=DIR / -p=DIR and --sort / --sort=true / -s=true; (structure) test classes without any test method, with 9 and 17 test methods, trees with 9 and 17 test classes, bodies with 9 / 17 / 33 / 65 calls, helpers with one or two int parameters (called with textually identical or different arguments: a two-argument helper call with identical arguments is a two-argument call like any other), a package-info.java among the Maven test sources, copies of a test class's text under names that are no Java source names (X.java.bak, X.java~, X.java.orig, X.txt, X.javax, X.kt, Xjava, X.JAVA), a .gitignore whose patterns match no file of the tree; (evidence) System.out.printf and Thread.sleep with two identical arguments (both findings), Thread.sleep(ms, ns), a call as the argument of a print / sleep, argument texts with a comma inside (\"a, b\", Arrays.asList(1, 2)), second argument a prefix of the first, assertThat(x, is(y)), one assertion name verifyAll called 5-6 times through two fields of one class (one assertion method: DuplicateAssertTest) or on fields of two classes (two methods: none), a same-named helper of ANOTHER test class of the tree called on a field (no helper of the same class), look-alikes out.println / this.out.printf / writer.print on fields, Thread.yield, reassert, unverified; (histories) in one case of five another tree (same layout; its first class has name, package and directory of the judged tree's first test class but other methods) is analysed first - in the same process without reset (API), by an earlier `coca tbs` run in the same working directory (CLI) - and in one CLI case of five the same tree is analysed first with the other setting of -s. Non-trivial = some test method with >= 2 atom kinds, or a multiplicity 4/5/6, or both annotations; distinct = layout + per-file atom sequences.",
 		"assertion names are clear positives (assert*, verify*, isEqualTo, one name per other prefix of the tool's list); other callee names do not start with the tool's prefixes (assert, should, check, maynotbe, is, spec, verify)",
 		"called helpers contain only assertions, neutral calls, creations and plain statements (prints, sleeps and identical-argument calls inside a called helper are not generated: the statement does not say whose finding they would be); helper inlining is one level; helpers are not overloaded; two classes with the same fully-qualified name in one tree are not generated",
 		"an assertion name never reaches 5 occurrences only through helper bodies; a method annotated @Ignore alone always makes a call; creations appear only next to at least one method call",
 		"a call split over two lines starts (callee name and opening parenthesis) on its first line; method references (System.out::println), nested types, inherited helpers and JUnit 5 @Disabled are not generated",
 		"a method counts as a test method by @Test/@Ignore alone (statement: 'Methods without @Test/@Ignore ... never produce a finding'), so look-alike annotations and an @Ignore on the class call for nothing",
+		"prints and sleeps are written System.out.<m>(..) and Thread.sleep(..) literally (with or without blanks and comments between the tokens); java.lang.System.out.println, a print on the result of another print (System.out.printf(..).println()), Thread.currentThread().sleep(..), sleep on a variable of type Thread, statically imported sleep / out, and one assertion method spelled both assertEquals(..) and Assert.assertEquals(..) inside one test are not generated: the statement names the textual forms only",
+		"one top-level class per file, no type parameters on test methods, no byte order mark (the shipped parser rejects it), no directory named like a Java file; no path contains `testData` (the tool leaves such paths out on purpose; the statement does not mention it) and the .gitignore never matches a file of the tree; a directory name with a blank occurs in the API check only (the printed table folds cells at blanks)",
+		"annotations written with their package are generated unless known_findings.json lists the feature "+qualifiedFeature+" as known",
 		"known finding (feature "+oneCallFeature+"): @Test methods with exactly one call (after helper inlining) are generated only with VERIF_NO_EXCLUDE=1 or while the finding is not listed as known")
 	pbt.Register("tree", 1000, 2000, genCase, checkAPI)
 	pbt.Register("cli", 60, 150, genCLICase, checkCLI)
